@@ -217,6 +217,8 @@ def tuple_elems(ty):
         return mirmod.split_top(ty[1:-1])
     return None
 
+_SYMCHAR_CACHE = {}
+
 class Frame:
     __slots__ = ('fn', 'L')
     def __init__(self, fn, L): self.fn = fn; self.L = L
@@ -249,11 +251,16 @@ class Interp:
     # ---------------- symbolic inputs -------------------------------------------------------
     def sym_char(self, name, ascii_only=False, exclude=()):
         c = self.ctx.bv(name, 32)
-        cs = [z3.ULT(c, 0x110000), z3.Or(z3.ULT(c, 0xD800), z3.UGT(c, 0xDFFF)), c != 0, c != 10]
-        if ascii_only: cs.append(z3.ULT(c, 0x80))
-        for x in exclude:
-            cs.append(c != (ord(x) if isinstance(x, str) else x))
-        self.ctx.assume(z3.And(*cs))
+        ck = (name, ascii_only, tuple(exclude))
+        cond = _SYMCHAR_CACHE.get(ck)
+        if cond is None:
+            cs = [z3.ULT(c, 0x110000), z3.Or(z3.ULT(c, 0xD800), z3.UGT(c, 0xDFFF)), c != 0, c != 10]
+            if ascii_only: cs.append(z3.ULT(c, 0x80))
+            for x in exclude:
+                cs.append(c != (ord(x) if isinstance(x, str) else x))
+            cond = z3.And(*cs)
+            _SYMCHAR_CACHE[ck] = cond
+        self.ctx.assume(cond)
         self.ctx.inputs.append((name, c, 'char'))
         return c
     def sym_int(self, name, bits=32, lo=None, hi=None, signed=True):
@@ -610,6 +617,10 @@ class Interp:
                         raise Unsupported('stmt ' + kind)
                 else:
                     raise Unsupported('block without terminator')
+        except (Unsupported, StepBudget) as u:
+            if not hasattr(u, 'where'):
+                u.where = [f.fn.name for f in self.stack[-5:]]
+            raise
         finally:
             self.stack.pop()
 
